@@ -472,7 +472,9 @@ pub fn record(args: &[String]) -> i32 {
         let script: Vec<J> = if !with_c15 && !merged && h % 2 == 0 {
             vec![json!({"op": "append_child", "r": 4, "n": 17}), json!({"op": "replace_child", "r": 4, "n": 28, "old": 17}),
                  json!({"op": "append_child", "r": 7, "n": 18}), json!({"op": "replace_child", "r": 7, "n": 29, "old": 18}),
-                 json!({"op": "insert_before", "r": 4, "n": 20, "ref": 7}), json!({"op": "replace_child", "r": 4, "n": 30, "old": 20})]
+                 json!({"op": "insert_before", "r": 4, "n": 20, "ref": 7}), json!({"op": "replace_child", "r": 4, "n": 30, "old": 20}),
+                 // the document element asked to change places with the PI in front of it / the comment behind it
+                 json!({"op": "insert_before", "r": 1, "n": 4, "ref": 3}), json!({"op": "insert_before", "r": 1, "n": 31, "ref": 4})]
         } else {
             vec![]
         };
